@@ -132,6 +132,23 @@ def judge(part, probe, reg, query, lv, rv, tag, roundtrip=None):
         return None
     raw = rep["value"]["raw"]
     want = lv.v / rv.v
+    if lv.f or rv.f:
+        # a float-valued unit or a root takes part: x*t = v is judged to float precision,
+        # as long as all three numbers are comfortably inside the range of a machine float
+        if not all(Fraction(1, 10 ** 250) < abs(z) < Fraction(10) ** 250 for z in (lv.v, rv.v, want)):
+            part.count("float_case_outside_float_range")
+            return None
+        if "n" not in raw:
+            part.violation({"kind": "float_conversion_not_finite"}, dict(wit, raw=raw), "")
+            return None
+        got = frac_of(raw)
+        if abs(got - want) > abs(want) * Fraction(1, 10 ** 9):
+            part.violation({"kind": "float_conversion_factor_wrong", "case": tag},
+                           dict(wit, expected=float(want), got=float(got)), "x * t != v (beyond float precision)")
+            return None
+        part.count("float_converted_ok")
+        part.seen(tag + "|" + query)
+        return None
     if raw.get("f"):
         part.violation({"kind": "float_conversion_factor"}, dict(wit, raw=raw), "float result for exact units")
         return None
@@ -164,10 +181,9 @@ def work_pairs(idx, chunk, seed, do_roundtrip):
             part.count("model_unresolved")
             continue
         if la.f or lb.f:
-            la2 = lb2 = None
-            if dims_key(la.d) != dims_key(lb.d):
-                la2, lb2 = la, lb      # refusal is still judged on dimensions
-            x = judge(part, probe, reg, "%s -> %s" % (ra, rb), la2, lb2, tag + ":float")
+            if la.nan or lb.nan or lb.v == 0:
+                continue
+            judge(part, probe, reg, "%s -> %s" % (ra, rb), la, lb, tag + ":float")
             continue
         x = judge(part, probe, reg, "%s -> %s" % (ra, rb), la, lb, tag)
         if x is not None and do_roundtrip and x != 0:
@@ -237,6 +253,13 @@ def gen_compound(rng, reg, classes, class_list):
         t = "%s/%d" % (t, rng.randrange(2, 9))
     elif r < 0.45:
         t = "newname%d = %s" % (rng.randrange(100), t)
+    elif r < 0.55 and "/" not in t and "/" not in s:
+        # targets / sources built with roots: rink computes those in machine floats
+        k = rng.choice([2, 3])
+        if rng.random() < 0.5:
+            t = "(%d (%s)^%d)^(1|%d)" % (rng.choice([4, 8, 9, 27, 2]), t, k, k)
+        else:
+            s = "(%d (%s)^%d)^(1|%d)" % (rng.choice([4, 8, 9, 27, 2]), s, k, k)
     return s, t
 
 
@@ -318,6 +341,20 @@ def run(tier, seed):
         n_compound = 20000 // nproc() + 1
         do_rt = True
         rt_pairs = 0
+    # float-valued units (defined through roots): against every unit of their dimensionality, both directions
+    floats = []
+    for n in reg.all_names():
+        v = reg.lookup_exact(n)
+        if v is not None and v.f and not v.nan:
+            k = dims_key(v.d)
+            for other in classes.get(k, [])[:400]:
+                floats.append((n, other, "float-unit"))
+                floats.append((other, n, "float-unit"))
+            for n2 in reg.all_names():
+                v2 = reg.lookup_exact(n2)
+                if v2 is not None and v2.f and dims_key(v2.d) == k:
+                    floats.append((n, n2, "float-unit"))
+    run.extra_cov["float_valued_unit_pairs"] = len(floats)
     # mismatches: each unit against a unit of another class and against its reciprocal class
     allnames = [n for k in keys for n in classes[k]]
     name_class = {n: k for k in keys for n in classes[k]}
@@ -345,7 +382,7 @@ def run(tier, seed):
         a2 = rng.choice(pres) + a + rng.choice(["", "s"])
         b2 = rng.choice(pres) + b + rng.choice(["", "s"])
         pref.append((a2, b2, "prefixed"))
-    jobs = pairs + mism + pref
+    jobs = pairs + mism + pref + floats
     rng.shuffle(jobs)
     for res in shard_map(work_pairs, split(jobs, nproc() * 8), (seed, do_rt)):
         run.merge(res)
